@@ -5,6 +5,7 @@ import (
 	"fmt"
 	"hash/fnv"
 	"os"
+	"runtime"
 	"sort"
 	"strconv"
 	"testing"
@@ -133,6 +134,11 @@ func Main(t *testing.T, props map[string]Prop) {
 	var curIdx int
 	watchdog := time.AfterFunc(time.Duration(wd)*time.Second, func() {
 		fmt.Fprintf(os.Stderr, "WATCHDOG property=%s run_index=%d seed=%d: no progress for %ds of real time\n", name, curIdx, curSeed, wd)
+		if os.Getenv("SIM_WATCHDOG_STACKS") != "" {
+			buf := make([]byte, 1<<20)
+			buf = buf[:runtime.Stack(buf, true)]
+			os.Stderr.Write(buf)
+		}
 		os.Exit(2)
 	})
 	pet := func() { watchdog.Reset(time.Duration(wd) * time.Second) }
@@ -286,8 +292,9 @@ func minimise(t *testing.T, p Prop, name string, res Result, idx int, pet func()
 			Tape: res.Tape, OrigTape: len(res.Tape), TraceHash: fmt.Sprintf("%016x", res.TraceHash)}
 	}
 	deadline := time.Now().Add(time.Duration(envInt("SIM_SHRINK_S", 60)) * time.Second)
+	spent := func() bool { return runs >= maxRuns || time.Now().After(deadline) }
 	try := func(c []uint32) bool {
-		if runs >= maxRuns || time.Now().After(deadline) {
+		if spent() {
 			return false
 		}
 		runs++
@@ -310,7 +317,7 @@ func minimise(t *testing.T, p Prop, name string, res Result, idx int, pet func()
 	// 1. shortest failing prefix (an exhausted tape yields zeros)
 	orig := append([]uint32(nil), best...)
 	lo, hi := 0, len(orig)
-	for lo < hi {
+	for lo < hi && !spent() {
 		mid := (lo + hi) / 2
 		if try(append([]uint32(nil), orig[:mid]...)) {
 			hi = mid
@@ -320,8 +327,8 @@ func minimise(t *testing.T, p Prop, name string, res Result, idx int, pet func()
 	}
 	// 2. delete blocks, 3. zero blocks
 	for pass := 0; pass < 2; pass++ {
-		for size := 32; size >= 1; size /= 2 {
-			for i := 0; i+size <= len(best); {
+		for size := 32; size >= 1 && !spent(); size /= 2 {
+			for i := 0; i+size <= len(best) && !spent(); {
 				var c []uint32
 				if pass == 0 {
 					c = append(append([]uint32(nil), best[:i]...), best[i+size:]...)
@@ -346,8 +353,8 @@ func minimise(t *testing.T, p Prop, name string, res Result, idx int, pet func()
 		}
 	}
 	// 4. lower single values
-	for i := 0; i < len(best); i++ {
-		for i < len(best) && best[i] > 0 {
+	for i := 0; i < len(best) && !spent(); i++ {
+		for i < len(best) && best[i] > 0 && !spent() {
 			c := append([]uint32(nil), best...)
 			c[i] = c[i] / 2
 			if !try(c) {
